@@ -105,6 +105,12 @@ Lemma parse_value_S : forall f s, parse_value (S f) s =
                              | None => PFail end
         | _, _ => PFail end
       | None => PFail end
+    else if c =? 100 then
+      match expect 58 r with
+      | Some r1 => match split_semi r1 with
+                   | Some (txt, r2) => if float_text_ok txt then POk (VFloat txt, r2) else PFail
+                   | None => PFail end
+      | None => PFail end
     else if c =? 115 then
       match expect 58 r with
       | Some r1 =>
@@ -213,7 +219,7 @@ Proof.
   intros f k rest Hk. unfold len_ok in Hk. unfold str_lit. rewrite parse_value_S.
   repeat rewrite <- app_assoc. cbn [app].
   change (115 =? 78) with false. change (115 =? 98) with false. change (115 =? 105) with false.
-  change (115 =? 115) with true. cbv iota.
+  change (115 =? 100) with false. change (115 =? 115) with true. cbv iota.
   rewrite expect_hit.
   rewrite span_digits_app; [|apply dec_N_digits|reflexivity].
   destruct (dec_N_cons (N.of_nat (length k))) as (d & r & E & Hd). rewrite E at 1.
@@ -223,6 +229,25 @@ Proof.
     by (rewrite app_length; simpl; lia).
   rewrite Nat2N.id. rewrite skipn_app_exact, firstn_app_exact.
   rewrite expect_hit, expect_hit. reflexivity.
+Qed.
+
+(* d:text; *)
+Lemma split_semi_app : forall t rest, no_semi t = true -> split_semi (t ++ 59 :: rest) = Some (t, rest).
+Proof.
+  induction t as [|c t IH]; intros rest H; cbn [app split_semi].
+  - reflexivity.
+  - cbn [no_semi forallb] in H. apply andb_prop in H. destruct H as [H1 H2].
+    replace (c =? 59) with false by (destruct (c =? 59); [discriminate|reflexivity]).
+    rewrite (IH rest H2). reflexivity.
+Qed.
+
+Lemma parse_float : forall f t rest, float_text_ok t = true -> no_semi t = true ->
+  parse_value (S f) ([100; 58] ++ t ++ [59] ++ rest) = POk (VFloat t, rest).
+Proof.
+  intros f t rest Ht Hs. rewrite parse_value_S. cbn [app].
+  change (100 =? 78) with false. change (100 =? 98) with false. change (100 =? 105) with false.
+  change (100 =? 100) with true. cbv iota.
+  rewrite expect_hit. rewrite split_semi_app by exact Hs. rewrite Ht. reflexivity.
 Qed.
 
 (* ------------------------------------------------------------------ serialize, unfolded *)
@@ -412,7 +437,7 @@ Proof.
   intros f n body rest kvs Hn Hb Hp. unfold arr_text. rewrite parse_value_S.
   repeat rewrite <- app_assoc. cbn [app].
   change (97 =? 78) with false. change (97 =? 98) with false. change (97 =? 105) with false.
-  change (97 =? 115) with false. change (97 =? 97) with true. cbv iota.
+  change (97 =? 100) with false. change (97 =? 115) with false. change (97 =? 97) with true. cbv iota.
   rewrite expect_hit.
   rewrite span_digits_app; [|apply dec_N_digits|reflexivity].
   destruct (dec_N_cons (N.of_nat n)) as (d & r & E & Hd). rewrite E at 1.
@@ -436,7 +461,10 @@ Proof.
   - cbn [serializable] in Hs. exists ([105; 58] ++ dec_Z z ++ [59]). split; [reflexivity|].
     split; [repeat rewrite app_length; simpl; lia|]. intros rest f Hf.
     destruct f; [lia|]. repeat rewrite <- app_assoc. apply parse_int. exact Hs.
-  - discriminate.
+  - cbn [serializable] in Hs. apply andb_prop in Hs. destruct Hs as [Ht Hn].
+    exists ([100; 58] ++ b ++ [59]). split; [reflexivity|].
+    split; [repeat rewrite app_length; simpl; lia|]. intros rest f Hf.
+    destruct f; [lia|]. repeat rewrite <- app_assoc. apply parse_float; assumption.
   - cbn [serializable] in Hs. exists (str_lit s). split; [reflexivity|].
     split; [unfold str_lit; repeat rewrite app_length; simpl; lia|]. intros rest f Hf.
     destruct f; [lia|]. apply parse_str. exact Hs.
@@ -463,27 +491,10 @@ Proof.
 Qed.
 
 (* ------------------------------------------------------------------ unserialize (serialize v) *)
-Lemma strip_suffix_semicolon : forall x, strip_space_suffix_rev (59 :: x) = None.
-Proof. intros x. destruct x as [|p1 [|p2 r2]]; reflexivity. Qed.
-Lemma strip_suffix_brace : forall x, strip_space_suffix_rev (125 :: x) = None.
-Proof. intros x. destruct x as [|p1 [|p2 r2]]; reflexivity. Qed.
-
-Lemma trim_space_id : forall t,
-  strip_space_prefix t = None -> strip_space_suffix_rev (rev t) = None -> trim_space t = t.
-Proof.
-  intros t Hp Hs. unfold trim_space.
-  assert (Hl : trim_left (length t) t = t).
-  { destruct (length t); [reflexivity|]. cbn [trim_left]. rewrite Hp. reflexivity. }
-  rewrite Hl.
-  assert (Hr : trim_right_rev (length t) (rev t) = rev t).
-  { destruct (length t); [reflexivity|]. cbn [trim_right_rev]. rewrite Hs. reflexivity. }
-  rewrite Hr. apply rev_involutive.
-Qed.
-
 Definition starts_ok (t : bytes) : Prop :=
   exists c0 c1 r, t = c0 :: c1 :: r /\
-    ((c0 = 78 /\ c1 = 59) \/ (c0 = 98 /\ c1 = 58) \/ (c0 = 105 /\ c1 = 58) \/ (c0 = 115 /\ c1 = 58)
-     \/ (c0 = 97 /\ c1 = 58)).
+    ((c0 = 78 /\ c1 = 59) \/ (c0 = 98 /\ c1 = 58) \/ (c0 = 105 /\ c1 = 58) \/ (c0 = 100 /\ c1 = 58)
+     \/ (c0 = 115 /\ c1 = 58) \/ (c0 = 97 /\ c1 = 58)).
 Definition ends_ok (t : bytes) : Prop := exists r cl, t = r ++ [cl] /\ (cl = 59 \/ cl = 125).
 
 Lemma ser_shape : forall v t, ser v = Some t -> starts_ok t /\ ends_ok t.
@@ -494,42 +505,39 @@ Proof.
     + split; [exists 98, 58, [49; 59]; split; [reflexivity|]; auto|exists [98; 58; 49], 59; auto].
     + split; [exists 98, 58, [48; 59]; split; [reflexivity|]; auto|exists [98; 58; 48], 59; auto].
   - cbn [ser] in H. inversion H; subst. split.
-    + exists 105, 58, (dec_Z z ++ [59]). split; [reflexivity|]. auto 6.
+    + exists 105, 58, (dec_Z z ++ [59]). split; [reflexivity|]. auto 8.
     + exists ([105; 58] ++ dec_Z z), 59. split; [rewrite <- app_assoc; reflexivity|auto].
-  - discriminate.
+  - cbn [ser] in H. inversion H; subst. split.
+    + exists 100, 58, (b ++ [59]). split; [reflexivity|]. auto 8.
+    + exists ([100; 58] ++ b), 59. split; [rewrite <- app_assoc; reflexivity|auto].
   - cbn [ser] in H. inversion H; subst. unfold str_lit. split.
-    + eexists 115, 58, _. split; [reflexivity|]. auto 8.
+    + eexists 115, 58, _. split; [reflexivity|]. auto 10.
     + exists ([115; 58] ++ dec_N (N.of_nat (length s)) ++ [58; 34] ++ s ++ [34]), 59.
       split; [repeat rewrite <- app_assoc; reflexivity|auto].
   - rewrite ser_list in H. destruct (opt_concat (list_items 0 l)) as [body|]; [|discriminate].
     inversion H; subst. unfold arr_text. split.
-    + eexists 97, 58, _. split; [reflexivity|]. auto 10.
+    + eexists 97, 58, _. split; [reflexivity|]. auto 12.
     + exists ([97; 58] ++ dec_N (N.of_nat (length l)) ++ [58; 123] ++ body), 125.
       split; [repeat rewrite <- app_assoc; reflexivity|auto].
   - rewrite ser_map in H. destruct (opt_concat (map_items l)) as [body|]; [|discriminate].
     inversion H; subst. unfold arr_text. split.
-    + eexists 97, 58, _. split; [reflexivity|]. auto 10.
+    + eexists 97, 58, _. split; [reflexivity|]. auto 12.
     + exists ([97; 58] ++ dec_N (N.of_nat (length l)) ++ [58; 123] ++ body), 125.
       split; [repeat rewrite <- app_assoc; reflexivity|auto].
 Qed.
 
 Lemma unserialize_of_text : forall t v,
-  starts_ok t -> ends_ok t ->
+  starts_ok t ->
   (forall rest f, (2 * length (t ++ rest) + 1 <= f)%nat -> parse_value f (t ++ rest) = POk (v, rest)) ->
   unserialize t = POk v.
 Proof.
-  intros t v (c0 & c1 & r & Et & Hc) (r' & cl & Et' & Hcl) Hp.
-  assert (Htrim : trim_space t = t).
-  { apply trim_space_id.
-    - rewrite Et. destruct Hc as [[-> ->]|[[-> ->]|[[-> ->]|[[-> ->]|[-> ->]]]]]; reflexivity.
-    - rewrite Et', rev_app_distr. cbn [rev app].
-      destruct Hcl as [-> | ->]; [apply strip_suffix_semicolon|apply strip_suffix_brace]. }
-  unfold unserialize. rewrite Htrim.
+  intros t v (c0 & c1 & r & Et & Hc) Hp.
+  unfold unserialize.
   assert (Hstrict : parse_strict t = POk v).
   { unfold parse_strict. specialize (Hp [] (fuel_for t)). rewrite app_nil_r in Hp.
     rewrite Hp; [reflexivity|]. unfold fuel_for. lia. }
-  rewrite Et in *. 
-  destruct Hc as [[-> ->]|[[-> ->]|[[-> ->]|[[-> ->]|[-> ->]]]]];
+  rewrite Et in *.
+  destruct Hc as [[-> ->]|[[-> ->]|[[-> ->]|[[-> ->]|[[-> ->]|[-> ->]]]]]];
     cbn [has_prefix bytes_eqb firstn length orb N.eqb Pos.eqb andb]; rewrite Hstrict; reflexivity.
 Qed.
 
@@ -564,6 +572,15 @@ Proof.
     destruct (x =? 43); inversion H; subst; simpl; lia.
 Qed.
 
+Lemma split_semi_len : forall s a b, split_semi s = Some (a, b) -> length s = S (length a + length b).
+Proof.
+  induction s as [|c s IH]; intros a b H; cbn [split_semi] in H; [discriminate|].
+  destruct (c =? 59).
+  - inversion H; subst. reflexivity.
+  - destruct (split_semi s) as [[a' b']|] eqn:E; [|discriminate]. inversion H; subst.
+    cbn [length]. rewrite (IH a' b eq_refl). reflexivity.
+Qed.
+
 Ltac len_facts :=
   repeat match goal with
   | H : expect _ ?s = Some ?r |- _ => apply expect_len in H
@@ -592,6 +609,11 @@ Proof.
       destruct (take_sign r1) as [neg r2] eqn:E2. destruct (span_digits r2) as [ds r3] eqn:E3.
       destruct ds as [|d ds]; [discriminate|]. destruct (expect 59 r3) eqn:E4; [|discriminate].
       destruct (int_of_text neg (d :: ds)); [|discriminate]. inversion H; subst. len_facts. simpl in *. lia. }
+    destruct (c =? 100).
+    { destruct (expect 58 s') as [r1|] eqn:E1; [|discriminate].
+      destruct (split_semi r1) as [[txt r2]|] eqn:E2; [|discriminate].
+      destruct (float_text_ok txt); [|discriminate]. inversion H; subst.
+      apply split_semi_len in E2. len_facts. simpl in *. lia. }
     destruct (c =? 115).
     { destruct (expect 58 s') as [r1|] eqn:E1; [|discriminate].
       destruct (span_digits r1) as [ds r2] eqn:E3.
@@ -643,6 +665,9 @@ Proof.
     { destruct (expect 58 s'); [|discriminate]. destruct (take_sign b) as [neg r2].
       destruct (span_digits r2) as [ds r3]. destruct ds; [discriminate|].
       destruct (expect 59 r3); [|discriminate]. destruct (int_of_text neg (n :: ds)); discriminate. }
+    destruct (c =? 100).
+    { destruct (expect 58 s') as [q1|]; [|discriminate].
+      destruct (split_semi q1) as [[txt q2]|]; [|discriminate]. destruct (float_text_ok txt); discriminate. }
     destruct (c =? 115).
     { destruct (expect 58 s'); [|discriminate]. destruct (span_digits b) as [ds r2].
       destruct ds; [discriminate|]. destruct (expect 58 r2); [|discriminate].
@@ -687,20 +712,19 @@ Qed.
 
 Lemma unserialize_total_l : forall s, unserialize s <> POutOfFuel.
 Proof.
-  intros s. unfold unserialize. destruct (trim_space s) as [|c r] eqn:E; [discriminate|].
-  rewrite <- E. pose proof (parse_strict_total (trim_space s)) as T.
-  destruct (has_prefix [78; 59] (trim_space s) || has_prefix [98; 58] (trim_space s)
-            || has_prefix [105; 58] (trim_space s) || has_prefix [115; 58] (trim_space s)
-            || has_prefix [97; 58] (trim_space s)).
-  - destruct (parse_strict (trim_space s)); try discriminate; [|congruence].
-    destruct (has_prefix [115; 58] (trim_space s)); [|discriminate].
-    destruct (index_byte 34 (trim_space s)); [|discriminate].
-    destruct (index_byte 34 (rev (trim_space s))); [|discriminate].
+  intros s. unfold unserialize. destruct s as [|c r] eqn:E; [discriminate|]. rewrite <- E.
+  pose proof (parse_strict_total s) as T.
+  destruct (has_prefix [78; 59] s || has_prefix [98; 58] s || has_prefix [105; 58] s
+            || has_prefix [100; 58] s || has_prefix [115; 58] s || has_prefix [97; 58] s).
+  - destruct (parse_strict s); try discriminate; [|congruence].
+    destruct (has_prefix [115; 58] s); [|discriminate].
+    destruct (index_byte 34 s); [|discriminate].
+    destruct (index_byte 34 (rev s)); [|discriminate].
     destruct (Nat.leb _ _); [discriminate|].
     destruct (has_prefix origami_a _ || has_prefix origami_o _); discriminate.
-  - destruct (has_prefix [115; 58] (trim_space s)); [|discriminate].
-    destruct (index_byte 34 (trim_space s)); [|discriminate].
-    destruct (index_byte 34 (rev (trim_space s))); [|discriminate].
+  - destruct (has_prefix [115; 58] s); [|discriminate].
+    destruct (index_byte 34 s); [|discriminate].
+    destruct (index_byte 34 (rev s)); [|discriminate].
     destruct (Nat.leb _ _); [discriminate|].
     destruct (has_prefix origami_a _ || has_prefix origami_o _); discriminate.
 Qed.
